@@ -392,6 +392,59 @@ def shard(ctx):
                 if st.get("s" + tag) != st.get("t" + tag):
                     ctx.violation("keyvar:matrix:some", "`some xs[*].%%k` gives %s, `some xs[*].k` gives %s (clause #%s)" % (st.get("s" + tag), st.get("t" + tag), tag),
                                   {"kind": "pair", "a": "", "b": text, "data": kdocs, "map": {"s" + tag: "t" + tag}})
+    # ---- a LIST of key names bound to a variable (`x.%kl`): the verdict of the same keys written one by one (absent keys included)
+    if ctx.mine(3):
+        kdoc = {"x": {"em": {}, "es": "", "l": [1, 2], "m": {"a": 1}, "s": "ab", "n": 5, "n2": 5, "nul": None}}
+        pairs = [("l", "m"), ("l", "zz_missing"), ("zz_missing", "l"), ("zz_missing", "zz_other"), ("n", "n2"), ("s", "es"), ("em", "zz_missing"),
+                 ("n", "zz_missing"), ("zz_missing", "n"), ("es", "em"), ("nul", "n")]   # no empty list: `[] == 5` is vacuous (DESIGN 5.3)
+        kdoc["kl"] = {"p%d" % i: list(pr) for i, pr in enumerate(pairs)}
+        kdocs = json.dumps(kdoc)
+        ops = ["exists", "!exists", "empty", "!empty", "is_list", "is_string", "== 5", "!= 5", "in [5, [1, 2]]"]
+        for pi, (k1, k2) in enumerate(pairs):
+            lit = '["%s", "%s"]' % (k1, k2)
+            lines, tags = [], []
+            for oi, op in enumerate(ops):
+                for pre in ("", "not "):
+                    for some in (False, True):
+                        tag = "%d%s%s" % (oi, "n" if pre else "p", "s" if some else "a")
+                        tags.append(tag)
+                        sm = "some " if some else ""
+                        if some:
+                            lines.append("rule a%s {\n    %sx.%s %s or\n    %sx.%s %s\n}\n" % (tag, pre, k1, op, pre, k2, op))
+                        else:
+                            lines.append("rule a%s {\n    %sx.%s %s\n    %sx.%s %s\n}\n" % (tag, pre, k1, op, pre, k2, op))
+                        lines.append("rule f%s {\n    %s%sx.%%klf %s\n}\n" % (tag, pre, sm, op))
+                        lines.append("rule r%s {\n    let klr = %s\n    %s%sx.%%klr %s\n}\n" % (tag, lit, pre, sm, op))
+                        lines.append("rule q%s {\n    %s%sx.%%klq %s\n}\n" % (tag, pre, sm, op))
+                        lines.append("rule c%s {\n    pk%s(%s)\n}\nrule pk%s(ks) {\n    %s%sx.%%ks %s\n}\n" % (tag, tag, lit, tag, pre, sm, op))
+            head = "let klf = %s\nlet klq = kl.p%d\n" % (lit, pi)
+            st = {}
+            for tag in tags:
+                sub = head + "".join(l for l in lines if re.match(r"rule [afrqc]%s " % re.escape(tag), l))
+                r1 = ctx.w.run({"k": "rc", "data": kdocs, "rules": sub, "verbose": False})
+                k1_, s1, _ = obs.rc_statuses(r1)
+                ctx.res.cases += 1
+                if k1_ == "ok":
+                    st.update({k: v for k, v in s1.items() if not k.startswith("pk")})
+                else:
+                    # one erroring rule hides the others: one by one
+                    for pfx in "afrqc":
+                        sub1 = head + "".join(l for l in lines if l.startswith("rule %s%s " % (pfx, tag)))
+                        r2 = ctx.w.run({"k": "rc", "data": kdocs, "rules": sub1, "verbose": False})
+                        k2_, s2, _ = obs.rc_statuses(r2)
+                        st[pfx + tag] = s2.get(pfx + tag) if k2_ == "ok" else "ERR"
+            for tag in tags:
+                base_st = st.get("a" + tag)
+                for pfx, where in (("f", "file-literal"), ("r", "rule-literal"), ("q", "file-query"), ("c", "parameter")):
+                    ctx.res.counts["keylist-matrix"] += 1
+                    ctx.res.distinct.add(("keylist-matrix", where, tag[-2:], base_st, st.get(pfx + tag)))
+                    if tag.endswith("s") and "ERR" in (base_st, st.get(pfx + tag)):
+                        continue        # an `or` line stops at its first PASS, `some` looks at every value: an erroring later key is only seen by one of them
+                    if st.get(pfx + tag) != base_st:
+                        ctx.violation("keylist:matrix:%s" % where, "`x.%%kl` with kl = %s (%s) gives %s, the keys written one by one give %s (clause #%s)" % (lit, where, st.get(pfx + tag), base_st, tag),
+                                      {"kind": "pair", "a": "".join(l for l in lines if l.startswith("rule a%s " % tag)),
+                                       "b": head + "".join(l for l in lines if l.startswith("rule %s%s " % (pfx, tag))), "data": kdocs,
+                                       "map": {pfx + tag: "a" + tag}})
     # ---- every reference to a variable sees the same value (file / rule / block level; query, `some` query,
     #      filtered query, literal list and function-call bindings)
     n3 = 120 if ctx.quick else 4000
